@@ -192,6 +192,10 @@ def engine_property(prop, tier, theorems, need, kernel_theorems, fss, modes, wan
     t0 = _t.time(); sets = ce.compiled_sets(tier, fss); log('stage harness %.1fs' % (_t.time() - t0))
     t0 = _t.time(); failing, drv = cert_stage(res, tier, need, kernel_theorems, prop, curated_caps(sets, fss[0])); log('stage certificates %.1fs' % (_t.time() - t0))
     report_cert_failures(res, failing, drv, judge)
+    # the emitted code of both generators, parsed and checked against the graph (K12): report the inputs that fall in this property's class
+    emit_tags = {'C01': {'ok-item'}, 'C02': {'err-end'}, 'C03': {'tiling'}, 'C07': {'partial'}}.get(prop)
+    if emit_tags:
+        t0 = _t.time(); emitted_stage(res, tier, prop, emit_tags); log('stage emitted %.1fs' % (_t.time() - t0))
     if prop == 'C01':
         t0 = _t.time()
         repo_caps, rand_caps = ce.corpora(tier, res)
@@ -211,6 +215,141 @@ ASSUME_ENGINE = ['regex-level reading of a pattern language relies on regex-auto
 RULE_ENGINE = ('every accepted definition of the repo / curated / seeded random corpora: certificates %s evaluated over all 256 bytes + EOI '
                'from every paired (graph state, DFA state); K2: probes driving every graph state, every byte class boundary, EOI in every state, '
                'self-loop run lengths 0..17 and around multiples of 8, random token-biased inputs with noise; compared: %s')
+
+
+def emitted_stage(res, tier, prop, judge_tags, report_shape=False, leaf_bodies=False):
+    """Translator tie K12: the token text emitted by both code generators for every usable definition of the
+    corpora is parsed (lib/genparse.py, strict template match) into the program IR of Engine/Prog.v and the
+    extracted checker prog_ok relates it to the captured graph (theorems C06_emitted_is_model / _is_ref).
+    When a program is not accepted, an input is searched on which the emitted program departs from the reference
+    semantics of its graph; it is reported when its class is in judge_tags (any class when judge_tags is None).
+    A definition whose code no longer has the modelled shape is reported when report_shape is set."""
+    import genparse
+    drv = build.extraction_build()
+    sd = seed()
+    n = 300 if tier == 'quick' else 4000
+    randp = os.path.join(cache_dir('gen', 'graph-%d-%d' % (sd, n)), 'randgraph.rs')
+    if not os.path.exists(randp):
+        ce.corpora(tier, res)
+    eng = os.path.join(VERIF, 'corpus', 'engine')
+    groups = [('repo', build.repo_corpus_files()), ('randgraph-%d-%d' % (sd, n), [randp]),
+              ('curated-engine', [os.path.join(eng, f) for f in sorted(os.listdir(eng)) if f.endswith('.rs')])]
+    rng = random.Random(sd * 31 + 5)
+    nshape = 0; nbad = 0; nok = 0; nrep = 0
+    shapes = {}; leafshapes = {}
+    for sm in (False, True):
+        gname = 'sm' if sm else 'tc'
+        jobs = []; idx = []
+        for name, files in groups:
+            for c in build.capture_files(files, name + '-emit', sm=sm, gen=True):
+                if not ce.usable(c) or not os.path.exists(c.gen_path):
+                    continue
+                try:
+                    ir = genparse.parse_generated(open(c.gen_path).read())
+                    if ir['codegen'] != gname:
+                        raise genparse.ShapeError('expected the %s rendering, found %s' % (gname, ir['codegen']))
+                    if leaf_bodies:
+                        try:
+                            check_leaf_bodies(c, ir)
+                        except genparse.ShapeError as e:
+                            leafshapes.setdefault(str(e)[:160], []).append(c)
+                except genparse.ShapeError as e:
+                    nshape += 1
+                    shapes.setdefault(str(e)[:160], []).append(c)
+                    continue
+                jobs.append(engine.problem_header(c, with_dfa=False) + genparse.prog_records(ir) + ['PG %d' % len(idx)])
+                idx.append((c, ir))
+        out = engine.run_modeldrv(drv, certs._batch(jobs))
+        verdict = {}
+        for ln in out:
+            if ln.startswith('PG '):
+                q = ln.split(); verdict[int(q[1])] = (q[2] == '1')
+        for k, (c, ir) in enumerate(idx):
+            ok = verdict.get(k, False)
+            res.oblige(ok)
+            if ok:
+                nok += 1; continue
+            nbad += 1
+            if nbad > 12:
+                continue
+            # search: emitted program vs reference semantics of its graph
+            found = None
+            if None not in engine.behaviour_codes(c):
+                cands = ce.make_probes(c, rng, 'quick')
+                if c.utf8:
+                    cands = [x for x in cands if probes.is_utf8(x)]
+                lines = engine.problem_header(c, with_dfa=False) + genparse.prog_records(ir)
+                for i, w in enumerate(cands):
+                    for mode in (0, 1):
+                        lines.append('PP x%d_%d %d %d %s' % (i, mode, mode, len(w), ' '.join(map(str, w))))
+                po = engine.parse_model_output(engine.run_modeldrv(drv, [lines]))
+                for i, w in enumerate(cands):
+                    for mode in (0, 1):
+                        r = po.get('x%d_%d' % (i, mode))
+                        if not r or r[1] is None:
+                            continue
+                        (mi, mf), spec = r
+                        if (list(mi), mf) == (list(spec[0]), spec[1]):
+                            continue
+                        fake = dict(panic=None, bad_slice=False, finals=[(mf[1], mf[2])] * 3 if mf[0] == 'fin' else [],
+                                    items=[(a[0], engine.leaf_variant(c, a[1]) if a[0] and a[1] is not None else '', a[2], a[3]) for a in mi])
+                        tags = ce.classify(c, fake, spec[0], spec[1], None) if mode == 0 else {'partial'}
+                        if mode == 1 or tags:
+                            found = (w, mode, tags, mi, mf, spec); break
+                    if found:
+                        break
+            if found:
+                w, mode, tags, mi, mf, spec = found
+                if judge_tags is None or (tags & judge_tags):
+                    nrep += 1
+                    res.violation(None, '%s (%s generator): emitted code departs from the semantics of its graph on %r%s (%s)' %
+                                  (c.id, gname, w, ' in partial mode' if mode else '', ','.join(sorted(tags))),
+                                  dict(definition=c.source, definition_id=c.id, generator=gname, partial=bool(mode), input_hex=w.hex(), input=repr(w),
+                                       emitted_program_items=mi, emitted_program_final=mf, graph_items=spec[0], graph_final=spec[1], differs=sorted(tags)))
+            elif report_shape:
+                nrep += 1
+                res.violation(None, '%s (%s generator): the emitted program is not the program of its graph (prog_ok fails)' % (c.id, gname),
+                              dict(definition=c.source, definition_id=c.id, generator=gname,
+                                   no_longer_checks='certificate prog_ok (hypothesis of C06_emitted_is_model) for %s' % c.id), found_input=False)
+    for msg, cs in list(shapes.items())[:4]:
+        res.oblige(False)
+        log('emitted code of %d definitions has no modelled shape: %s' % (len(cs), msg))
+        if report_shape:
+            c = cs[0]
+            res.violation(None, 'the code emitted for %s (and %d more) no longer has the shape Engine/Prog.v models: %s' % (c.id, len(cs) - 1, msg),
+                          dict(definition=c.source, definition_id=c.id, shape_error=msg,
+                               no_longer_checks='translator lib/genparse.py (emitted code -> Engine/Prog.v program) for %d definitions' % len(cs)), found_input=False)
+    if leaf_bodies:
+        res.oblige(not leafshapes)
+        for msg, cs in list(leafshapes.items())[:4]:
+            c = cs[0]
+            res.violation(None, 'the callback dispatch emitted for %s (and %d more) is not the one of its leaf: %s' % (c.id, len(cs) - 1, msg),
+                          dict(definition=c.source, definition_id=c.id, shape_error=msg,
+                               no_longer_checks='translator lib/genparse.py classify_leaf_body / check_leaf_bodies (generate_callback templates) for %d definitions' % len(cs)), found_input=False)
+    res.trusted += ['translator lib/genparse.py: strict token-level match of the emitted code against the templates of generator/{mod,fork,fast_loop,leaf}.rs; '
+                    'the meaning given to each template is Engine/Prog.v walk_prog (fast loop macro with unroll 8, setup, fork, end-of-input block, _take_action, _get_action error arm)']
+    res.cov['emitted_programs'] = dict(accepted_by_prog_ok=nok, rejected=nbad, unparsed=nshape, generators=['tc', 'sm'],
+                                       corpora=[g[0] for g in groups], theorem='C06_emitted_is_model / C06_emitted_is_ref')
+    return nbad, nshape
+
+
+def check_leaf_bodies(c, ir):
+    """generate_callback: the body emitted for each leaf against the leaf's kind and callback (captured by the hook)."""
+    import genparse
+    if len(ir['leaves']) != len(c.leaves):
+        raise genparse.ShapeError('%d leaf bodies for %d leaves' % (len(ir['leaves']), len(c.leaves)))
+    for l, body in zip(c.leaves, ir['leaves']):
+        shape, cb = genparse.classify_leaf_body(body)
+        label = c.leafcb.get(l['idx'], '')
+        kind = l['kind'].split(':')[0]
+        want = {'skip': 'skip', 'unit': 'unit', 'value': 'value'}[kind] + ('_cb' if label else '')
+        if shape != want:
+            raise genparse.ShapeError('leaf %d (%s, callback %r) is compiled as %s' % (l['idx'], l['kind'], label, shape))
+        if label and label != '<inline>':
+            if cb != 'label:' + label:
+                raise genparse.ShapeError('leaf %d calls %s, its callback is %s' % (l['idx'], cb, label))
+        if label == '<inline>' and not (cb or '').startswith('inline:'):
+            raise genparse.ShapeError('leaf %d has an inline callback but the body calls %s' % (l['idx'], cb))
 
 
 def bytes_to_ranges(bs):
@@ -333,6 +472,7 @@ def check_C07(tier):
         res.violation(None, 'certificate %s fails for %s' % (name, c.id),
                       dict(definition=c.source, definition_id=c.id, no_longer_checks='certificate %s (promptness / exactness of partial lexing) for %s' % (name, c.id)),
                       found_input=False)
+    emitted_stage(res, tier, 'C07', {'partial'})
     viol = ce.run_k2_partial(res, sets, fss, tier, drv)
     enums_by_label = {label: enums for label, h, enums in sets}
     seen = 0
@@ -358,10 +498,12 @@ def check_C07(tier):
 
 def check_C06(tier):
     res = Result('C06', tier)
-    framework(res, ['C06_opt_is_ref', 'C06_generators_agree'])
+    framework(res, ['C06_opt_is_ref', 'C06_generators_agree', 'C06_emitted_is_model', 'C06_emitted_is_ref', 'C06_emitted_programs_agree'])
     fss = ['tc', 'sm']
     sets = ce.compiled_sets(tier, fss)
     failing, drv = cert_stage(res, tier, ['wf_graph'], [], 'C06', curated_caps(sets, 'tc'))
+    import time as _t
+    t0 = _t.time(); emitted_stage(res, tier, 'C06', None, report_shape=True); log('stage emitted %.1fs' % (_t.time() - t0))
     for c, name in failing[:6]:
         res.violation(None, 'certificate %s fails for %s' % (name, c.id),
                       dict(definition=c.source, definition_id=c.id, no_longer_checks='certificate wf_graph (hypothesis of C06_opt_is_ref) for %s' % c.id), found_input=False)
@@ -713,6 +855,9 @@ def check_C13(tier):
     fss = ['tc', 'sm']
     sets = ce.compiled_sets(tier, fss)
     drv = build.extraction_build()
+    # generate_callback: the dispatch emitted for every leaf of every corpus definition calls that leaf's callback,
+    # through the construct that belongs to its variant kind (translator lib/genparse.py)
+    emitted_stage(res, tier, 'C13', set(), leaf_bodies=True)
     rng = random.Random(seed() + 13)
     label, h, enums = sets[0]
     exe0, caps0 = h['tc']
